@@ -36,6 +36,16 @@ def _silence():
     return contextlib.redirect_stdout(io.StringIO())
 
 
+def _err_text(e):
+    """str(e), but for the overlap assertion of SourceFile._check the two ranges come first (the texts may be long)"""
+    a = e.args[0] if isinstance(e, AssertionError) and e.args else None
+    if isinstance(a, tuple) and len(a) == 2 and all(hasattr(r, "range") for r in a):
+        rng = " ".join("lineno=%d, col_offset=%d" % (p.lineno, p.col_offset)
+                       for r in a for p in (r.range.start, r.range.end))
+        return ("Replacement( overlap %s | %s" % (rng, str(e)))[:400]
+    return str(e)[:300]
+
+
 def run_session(files: dict, flags, *, keep_dir: str | None = None, config: dict | None = None,
                 per_test_reset: bool = True, apply_flags=None, no_black: bool = False) -> dict:
     """Run one in-process session.
@@ -80,6 +90,8 @@ def run_session(files: dict, flags, *, keep_dir: str | None = None, config: dict
         _config.config = cfg
         _problems.all_problems.clear()
         verif_rec.reset()
+        from inline_snapshot import _compare_context
+        _compare_context._eq_check_only = False      # a real session starts in a fresh process
         with snapshot_env() as state:
             recorder = ChangeRecorder()
             state.update_flags = Flags(flags)
@@ -132,7 +144,7 @@ def run_session(files: dict, flags, *, keep_dir: str | None = None, config: dict
                     apply_all([c for c in changes if c.flag in apply_set], recorder)
                     recorder.fix_all()
             except BaseException as e:  # noqa
-                obs["finish_error"] = [type(e).__name__, str(e)[:300],
+                obs["finish_error"] = [type(e).__name__, _err_text(e),
                                        traceback.format_exc()[-1500:]]
         obs["problems"] = len(_problems.all_problems)
         obs["problem_texts"] = [str(p)[:200] for p in _problems.all_problems]
